@@ -293,7 +293,17 @@ func verifPretty(m *api.EventMask) string { return "events" }
 //verif:cut (*github.com/containerd/nri/pkg/api.EventMask).PrettyString => verifPretty
 //verif:replay-with-cuts
 //verif:expect-cover done
-func H_C09_stale_sync() {
+func H_C09_stale_sync() { staleSyncRun() }
+
+// H_C16_restart_forgets_sync: the same scenario seen as a restart property: a stub whose session ended in
+// the middle of a split synchronization behaves like a fresh one in the next session.
+//verif:property C16
+//verif:cut (*github.com/containerd/nri/pkg/api.EventMask).PrettyString => verifPretty
+//verif:replay-with-cuts
+//verif:expect-cover done
+func H_C16_restart_forgets_sync() { staleSyncRun() }
+
+func staleSyncRun() {
 	s, r, _, err := newStubFor(0)
 	if err != nil {
 		return
